@@ -106,7 +106,9 @@ def make_exporter(source, allow, cap):
             os.environ['OF_SAFE_METRICS_FILE'] = tmp
             return OTelLineageExporter(cap, allowlist=ofcfg.read_allowlist())
         if source == 'env':
-            os.environ['OF_SAFE_METRICS'] = ' , '.join(allow) + (' ,' if allow else '')
+            # (one more entry with a blank inside, next to a star: an entry is what stands between two commas, and no instrument
+            # name contains a blank - it can never match anything)
+            os.environ['OF_SAFE_METRICS'] = ' , '.join(list(allow) + ['zz_ *']) + ' ,'
             return OTelLineageExporter(cap, allowlist=ofcfg.read_allowlist())
         if source == 'yaml':
             # ONE configuration file for the whole run, rewritten for every case: the allow-list in force is the one the
